@@ -31,6 +31,55 @@ pub fn handle_hexists(storage: &mut EngineModel, db: usize, parts: &[RespFrame])
 //@@ body
 //@@ end
 
+// ======================= HDEL key field [field ...] =========================
+pub open spec fn named_upto(parts: Seq<RespFrame>, n: int) -> Set<Vec<u8>>
+    decreases n
+{ if n <= 2 { Set::empty() } else { match arg_vec(parts, n - 1) { Some(v) => named_upto(parts, n - 1).insert(v), None => named_upto(parts, n - 1) } } }
+pub open spec fn refs_set(v: Seq<&Vec<u8>>, n: int) -> Set<Vec<u8>>
+    decreases n
+{ if n <= 0 { Set::empty() } else { refs_set(v, n - 1).insert(*v[n - 1]) } }
+pub proof fn lemma_refs_set_push(v: Seq<&Vec<u8>>, x: &Vec<u8>, n: int)
+    requires 0 <= n <= v.len(),
+    ensures refs_set(v.push(x), n) == refs_set(v, n),
+    decreases n
+{ if n > 0 { lemma_refs_set_push(v, x, n - 1); assert(v.push(x)[n - 1] == v[n - 1]); } }
+/// HDEL: the named fields leave; the reply counts those that were there; an emptied hash ceases to exist as a key (engine: unit hdel of shard_hashes)
+pub open spec fn spec_hdel(ds: DS, db: int, k: Seq<u8>, fs: Set<Vec<u8>>) -> (RV, DS) {
+    match ds_get(ds, db, k) {
+        None => (RV::Int(0), ds),
+        Some(DV::Hash(m)) => (RV::Int((m.dom().len() - m.remove_keys(fs).dom().len()) as int), if m.remove_keys(fs).dom().len() == 0 { ds.remove((db, k)) } else { ds.insert((db, k), DV::Hash(m.remove_keys(fs))) }),
+        Some(_) => (RV::WrongType, ds),
+    }
+}
+impl EngineModel {
+    /// ASSUMED CONTRACT (engine.rs StorageEngine::hdel — unit hdel of shard_hashes), fields handed over as references
+    #[verifier::external_body]
+    pub fn hdel(&mut self, db: usize, key: Vec<u8>, fields: &Vec<&Vec<u8>>) -> (r: Result<usize>)
+        ensures res_int(r, spec_hdel(old(self).ds@, db as int, key@, refs_set(fields@, fields@.len() as int)).0),
+            final(self).ds@ == spec_hdel(old(self).ds@, db as int, key@, refs_set(fields@, fields@.len() as int)).1,
+    { unimplemented!() }
+}
+//@@ unit handle_hdel fn src/storage/commands/hashes.rs handle_hdel
+//@@   params drop "storage: &Arc<StorageEngine>" add "storage: &mut EngineModel"
+//@@   rewrite R3
+//@@   rewrite RT "let mut fields = Vec::new();" "let mut fields: Vec<&Vec<u8>> = Vec::new();"
+//@@   rewrite RT "RespFrame::BulkString(Some(bytes)) => bytes.as_ref().clone()," "RespFrame::BulkString(Some(bytes)) => verif_clone_arc_bytes(bytes),"
+//@@   rewrite RFORC 0
+//@@   rewrite RT "RespFrame::BulkString(Some(bytes)) => fields.push(bytes.as_ref())," "RespFrame::BulkString(Some(bytes)) => { fields.push(bytes.as_ref()); proof { lemma_refs_set_push(f0, fields@.last(), f0.len() as int); assert(fields@ =~= f0.push(fields@.last())); reveal_with_fuel(refs_set, 2); } },"
+//@@   loop 0
+//@@|     invariant 2 <= i__n <= i__end, i__end == parts@.len(), *storage == *old(storage), arg(parts@, 1) == Some(key@),
+//@@|         refs_set(fields@, fields@.len() as int) == named_upto(parts@, i__n as int),
+//@@|     decreases i__end - i__n,
+//@@   loopstart 0
+//@@|     let ghost f0 = fields@;
+//@@|     proof { reveal_with_fuel(named_upto, 2); }
+pub fn handle_hdel(storage: &mut EngineModel, db: usize, parts: &[RespFrame]) -> (r: Result<RespFrame>)
+    ensures
+        (parts@.len() < 3 || arg(parts@, 1) is None) ==> cmd_refused(r, old(storage).ds@, final(storage).ds@),
+        parts@.len() >= 3 && arg(parts@, 1) is Some ==> cmd_ok(r, final(storage).ds@, spec_hdel(old(storage).ds@, db as int, arg(parts@, 1)->Some_0, named_upto(parts@, parts@.len() as int))),
+//@@ body
+//@@ end
+
 // ======================= HSET / HMSET: the field-value pairs =========================
 /// the (field, value) pairs the command names: arguments 2,3 / 4,5 / ...
 pub open spec fn hash_pairs(parts: Seq<RespFrame>) -> Seq<(Vec<u8>, Vec<u8>)> {
